@@ -189,6 +189,22 @@ def dur_ok(before, after):
     return abs(after - before) * 10 ** 9 <= abs(before) + 10 ** 9
 
 
+def dur_verdict(pairs, case):
+    """the duration clause of the property on (written, read) pairs; failures inside the known class of C32
+    (KnownClass_C32_roundtrip d := -10^9 < d <= -2^21, coq/Proofs/FloatConv.v: the round trip loses 2 units there) are
+    reported with that class, any other failure first"""
+    bad = [(b, a) for b, a in pairs if not dur_ok(b, a)]
+    other = [(b, a) for b, a in bad if not (-10 ** 9 < b <= -(1 << 21))]
+    if other:
+        b, a = other[0]
+        return ("duration %d is read back as %d (beyond 1 ppb + 1 unit)" % (b, a), {"case": describe(case)[:4000], "raw": b, "read": a})
+    if bad:
+        b, a = bad[0]
+        return ("duration %d is read back as %d (beyond 1 ppb + 1 unit; inside KnownClass_C32_roundtrip)" % (b, a),
+                {"case": describe(case)[:4000], "raw": b, "read": a, "class": "KnownClass_C32_roundtrip"})
+    return None
+
+
 def monitor(case, out):
     op = case[0]
     if out and out[0] == "PANIC":
@@ -215,16 +231,12 @@ def monitor(case, out):
         if out[4] != "1":
             return ("a field other than a duration differs after the round trip", {"case": describe(case)[:4000]})
         vals = list(map(int, out[5:]))
-        for b, a in zip(vals[0::2], vals[1::2]):
-            if not dur_ok(b, a):
-                return ("duration %d is read back as %d (beyond 1 ppb + 1 unit)" % (b, a), {"case": describe(case)[:4000]})
+        return dur_verdict(list(zip(vals[0::2], vals[1::2])), case)
     elif op == "D":
         vals = list(map(int, out[4:]))
         if len(vals) != len(case[1]):
             return ("duration list length changed", {"case": describe(case)})
-        for b, a in zip(case[1], vals):
-            if not dur_ok(b, a):
-                return ("duration %d is read back as %d (beyond 1 ppb + 1 unit)" % (b, a), {"case": describe(case), "raw": b, "read": a})
+        return dur_verdict(list(zip(case[1], vals)), case)
     elif op == "X":
         vals = [int(x, 16) for x in out[4:]]
         for b, a in zip(case[1], vals):
